@@ -309,6 +309,10 @@ func (r *Redirect) parseAndClearFlashMessages() {
 		return
 	}
 
+	// the decoder fills only the fields present in the cookie: start from zeroed slots, not from
+	// what an earlier request left in the reused backing array
+	clear(r.c.flashMessages[:cap(r.c.flashMessages)])
+
 	if _, err := r.c.flashMessages.UnmarshalMsg(cookieValue); err != nil {
 		// a cookie that is not a well-formed encoding yields no messages
 		r.c.flashMessages = r.c.flashMessages[:0]
